@@ -33,6 +33,7 @@ DECIDED = [
     "PROV-9 output paths are os.path.join(<output directory parameter>, <name derived from splitext(basename(input))>); the output directories come from tempfile.mkdtemp under the chosen root",
     "SINK-1 no remove/rename/rmtree and no write-mode open on an input derived path is reachable from the tools",
     "FMT-1 the three file lists (xml/odml, json, yaml globs) are converted with XML, JSON and YAML respectively, unconditionally",
+    "MAP-2 (shared with C15) the version converter the tools call counts every occurrence of a repeated sibling name (each gets its own suffix, so the output keeps every entity)",
     "FC-1 FormatConverter: output path = join(output dir, file name); the implicit output dir is <input dir name>_<format> next to the input dir; inputs are only loaded",
 ]
 NOT_DECIDED = ["byte identity of inputs (follows from the absence of write sinks under the library model)", "content of the outputs",
@@ -227,6 +228,10 @@ def run(prog, rep):
                           witness="a file is written outside the output directory")
     rep.floor("SINK-1", n_fs, 4, "write-mode opens reachable from the tools")
     rep.ok("SINK-1", "no destructive file call in the package", "ok", "odml/")
+
+    # ----------------------------------------------------------------- MAP-2
+    from .c15 import count_map_rule
+    count_map_rule(prog, rep, "MAP-2")
 
     # ------------------------------------------------------------------ FC-1
     rep.rule("FC-1", "FormatConverter.convert_dir: the output file path is os.path.join(<output dir or mirrored sub-dir>, file_name); "
